@@ -19,7 +19,7 @@ def run(ctx, col, tier):
              "in the view", floor=12)
     col.rule("R-ACCESS", "view accessors dereference the owner on every access: get_ndata / "
              "__getitem__ / __setitem__ are owner.get_ndata(key)[idx], identical in all sibling "
-             "view classes; Path ids are local positions", floor=7, exhaustive=True)
+             "view classes; Path ids are local positions", floor=7, exhaustive=True, shape=True)
     col.rule("R-PURE", "ownership: the tree's column accessor returns the owner's storage (writes "
              "through a node handle reach the owner); detach() and copy() return storage disjoint "
              "from the original", floor=7)
@@ -27,7 +27,7 @@ def run(ctx, col, tier):
              "0<=key<n -> key, key>=n raise) in every sibling; slices go through "
              "slice.indices(len)", floor=18, exhaustive=True)
     col.rule("R-SEG", "segments: a compartment's index pair is (parent, child); a tree's segments "
-             "are (pid, id) of every non-root node; a branch's are its consecutive positions", floor=3)
+             "are (pid, id) of every non-root node; a branch's are its consecutive positions", floor=3, shape=True)
     col.not_decided += ["interleavings of reads/writes as histories (reduced to the aliasing facts)",
                         "adjacency-matrix values"]
     col.assumptions += ["well-formed tree: ids equal positions"]
@@ -255,18 +255,18 @@ def idxnorm(ctx, col):
         d = repo.get_def(q)
         calls = [n for n in own_nodes(d) if isinstance(n, ast.Call) and dotted(n.func) == "_get_idx"]
         ok = len(calls) == 1 and norm_src(calls[0]) == "_get_idx(key, len(self))"
-        col.check(ok, "R-IDXNORM", q, d.loc(), "index normalised against the container's length", "",
+        col.shape(ok, "R-IDXNORM", q, d.loc(), "index normalised against the container's length", "",
                   "key is not normalised with _get_idx(key, len(self))", stmt="route")
     # slices
     for q in ("swcgeom.core.tree.Tree.__getitem__", "swcgeom.core.path.Path.__getitem__"):
         d = repo.get_def(q)
         ok = any(isinstance(s, ast.If) and "slice" in norm_src(s.test)
                  and "[self.node(i) for i in range(*key.indices(len(self)))]" in norm_src(s) for s in d.node.body)
-        col.check(ok, "R-IDXNORM", q, d.loc(), "slices resolve through slice.indices(len(self)) to node handles in order",
+        col.shape(ok, "R-IDXNORM", q, d.loc(), "slices resolve through slice.indices(len(self)) to node handles in order",
                   "", "slice arm is not [self.node(i) for i in range(*key.indices(len(self)))]", stmt="slice")
     d = repo.get_def("swcgeom.core.population.Population.__getitem__")
     ok = "NestTrees(self.trees, range(*key.indices(len(self))))" in norm_src(d.node)
-    col.check(ok, "R-IDXNORM", d.qualname, d.loc(), "population slices resolve through slice.indices(len(self))", "",
+    col.shape(ok, "R-IDXNORM", d.qualname, d.loc(), "population slices resolve through slice.indices(len(self))", "",
               "slice arm is not NestTrees(self.trees, range(*key.indices(len(self))))", stmt="slice")
 
 
